@@ -8,6 +8,13 @@ CHECKS = {
  'C03': dict(engine='A', technique='bounded model checking (cbmc/SAT) of the real direction tables and sub-grid wiring code lowered through LLVM IR',
    text='Solver verdict over ALL 27 classifications x all binary64 direction triples x all 64 masks for the direction tables (no bound needed: loop-free), against an independent arithmetic reference; further harnesses cover wiring for layouts <= 3 per axis. Bounded model checking is the right level: the content is finite tables and index arithmetic where the rare input (one wrong entry out of 27) is exactly what sampling misses.',
    note='Trusted: clang-14 lowering (-O1), the IR->C translator (validated every run against the g++ build of the same wrappers on 900 vectors), cbmc. Outside: numeric equality of estimators between split and unsplit grids; layouts > 3 per axis.', ref='DESIGN.md section 5 C03'),
+
+ 'C14': dict(engine='A', technique='bounded model checking (cbmc/SAT) of the real RestartManager::get_restart_writer text against a modelled file system: inductive step over arbitrary history length, crash point symbolic',
+   text='One inductive step of the dump rotation from the state after d dumps (representation invariant, d-generic) for every max_backups in 0..8, with a crash injected at every file-system operation; solver verdict over all (max_backups, d, crash point). Covers histories of any length by induction; counterexamples are replayed on the real RestartManager with real rename(2) in a temp dir.',
+   note='Trusted: the environment models (std::string/stringstream as {kind,index}, POSIX rename on an array file system, truncating writer). Outside: fsync/durability, stop-file and wall-clock triggers, a manager constructed over a directory that already holds dumps.', ref='DESIGN.md section 5 C14'),
+ 'C19': dict(engine='B+A', technique='symbolic execution of the real TimeLine IR with z3 (bit-vector integers, power-of-two scaling exact) for advance/constructor/restart; cbmc bit-precise for the end-time formula',
+   text='One advance() from ANY valid state (inductive: covers every history of requests), the constructor establishing the invariant, the restart pair, each path obligation decided by z3; the physical end-time formula is decided bit-precisely by cbmc. Quick enumerates 16 of the 64 maximum-step exponents, thorough all 64.',
+   note='Assumes conversion factor in the normal range (power-of-two scaling exact), request > 0 and finite. Known finding D7 (end time one rounding away from the requested end) is listed in known_findings.json and reported as KNOWN-FINDING.', ref='DESIGN.md section 5 C19'),
 }
 NA = {
 }
